@@ -311,3 +311,38 @@ def _(root):
     s = s.replace('_filename', 'tmpname').replace('memo', 'contents')
     # 'memo' also appears inside the import-based reader's source strings; keep those in sync by construction (same replace)
     open(p, 'w').write(s)
+
+
+@V('mru-ordered-dict-correct')
+def _(root):
+    """safe.mru_cache keeps recency in an insertion-ordered dict: a hit removes the key first, so re-inserting moves it to the recent end"""
+    p = os.path.join(root, 'klepto', 'safe.py')
+    s = open(p).read()
+    i = s.index('class mru_cache')
+    j = s.index('class rr_cache')
+    body = s[i:j]
+    for old, new in [
+        ("        from collections import deque\n", ""),
+        ("        queue = deque()                 # order that keys have been used\n", "        queue = {}                      # keys, in the order they were used\n"),
+        ("        # lookup optimizations (ugly but fast)\n        queue_append, queue_popleft = queue.append, queue.popleft\n        queue_appendleft, queue_pop = queue.appendleft, queue.pop\n", ""),
+        ("                try: queue.remove(key)\n                except ValueError: pass\n", "                queue.pop(key, None)\n"),
+        ("k = queue_pop() if queue else next(iter(cache))", "k = queue.popitem()[0] if queue else next(iter(cache))"),
+        ("            queue_append(key)\n            return result", "            queue[key] = None\n            return result"),
+    ]:
+        if old not in body:
+            raise RuntimeError('variant anchor not found: %r' % old[:50])
+        body = body.replace(old, new, 1)
+    open(p, 'w').write(s[:i] + body + s[j:])
+
+
+@V('argspec-memo-keyed-by-function')
+def _(root):
+    """inspection results memoised per function object (a bound method shares its function's entry); the defaults dict is rebuilt per call"""
+    sub_all(root, ('_inspect.py',), "import inspect\nfrom klepto.tools import IS_PYPY\n",
+            "import inspect\nfrom weakref import WeakKeyDictionary\nfrom klepto.tools import IS_PYPY\n\n_argspecs = WeakKeyDictionary()\n"
+            "def _argspec(func):\n    key = getattr(func, '__func__', func)\n    try:\n        return _argspecs[key]\n    except (KeyError, TypeError):\n        pass\n"
+            "    spec = inspect.getfullargspec(func)\n    try:\n        _argspecs[key] = spec\n    except TypeError:\n        pass\n    return spec\n\n")
+    sub_all(root, ('_inspect.py',), "        if FULL_ARGS: arg_spec = inspect.getfullargspec(func)\n        else: arg_spec = inspect.getargspec(func)\n",
+            "        arg_spec = _argspec(func)\n")
+    sub_all(root, ('_inspect.py',), "            arg_kwdefault = getattr(arg_spec, 'kwonlydefaults') or {}\n",
+            "            arg_kwdefault = dict(getattr(arg_spec, 'kwonlydefaults') or {})\n")
